@@ -273,11 +273,13 @@ fn run_generated(cfg: &Cfg, index: u64, stats: &mut Stats) {
                     body.push_str(t);
                 }
             }
-            body.push_str("do s <- ! add a0 b1;\n");
-            for i in 1..k {
-                body.push_str(&format!("do s <- ! add s a{i};\n"));
+            // (components captured by a chain of continuations keep their tuples boxed: one use at the end)
+            let (r, t) = (rng.below(k), rng.below(k));
+            if rng.chance(1, 2) {
+                body.push_str(&format!("! exit a{r}\n"));
+            } else {
+                body.push_str(&format!("do s <- ! add a{r} b{t};\n! exit s\n"));
             }
-            body.push_str("! exit s\n");
             (format!("{prelude}{body}"), "accepted-several-destructured-tuples")
         }
         | 7 => {
